@@ -63,7 +63,8 @@ def repo_hash():
 
 
 def machinery_hash():
-    return tree_hash([os.path.join(HARNESS, "src"), os.path.join(HARNESS, "Cargo.toml"),
+    return tree_hash([os.path.join(HARNESS, "src"), os.path.join(HARNESS, "Cargo.toml"), os.path.join(HARNESS, "lab_template"),
+                      os.path.join(HARNESS, "gen_catalogue.py"),
                       os.path.join(LEAN, "TrucModel"), os.path.join(LEAN, "Driver.lean"),
                       os.path.join(VERIF, "lib"), os.path.join(VERIF, "corpus"),
                       os.path.join(VERIF, "translators")])
